@@ -19,6 +19,7 @@ package requestcontext
 import (
 	"net/http"
 	"net/url"
+	"strings"
 
 	"github.com/dadrus/heimdall/internal/x"
 )
@@ -46,6 +47,11 @@ func extractURL(req *http.Request) *url.URL {
 			// the query is taken as received. Parsing and encoding it again would sort its settings,
 			// change their encoding and drop those the parser does not accept
 			query = forwardedURI.RawQuery
+		} else {
+			// the forwarded target cannot be parsed (e.g. a malformed percent-encoding). It is used as
+			// received. Falling back to the target of the request sent to heimdall itself would let the
+			// rules decide about a different path than the one the client asked for
+			rawPath, query, _ = strings.Cut(val, "?")
 		}
 	}
 
